@@ -225,11 +225,13 @@ Definition install_one (c : ictx) (src : str * skind) (d : str) : list action :=
   | SMissing => []
   end.
 
+Definition rel_string (rel : list str) : str := match rel with [] => dot | cs => join_sl cs end.
+
 (* _install_from_dirs for one directory argument *)
 Definition from_dir (c : ictx) (d : str) (walk : list wentry) : list action :=
   let base := basename (rstrip_sl d) in
   concat (map (fun w =>
-    let rel := match w_rel w with [] => dot | cs => join_sl cs end in
+    let rel := rel_string (w_rel w) in
     let dd := normpath (join2 base rel) in
     AMkdirs (under (c_dest c) dd) (c_dirmode c)
     :: map (fun nt => ASymlinkNew (snd nt) (under (c_dest c) (join2 dd (fst nt)))) (w_dlinks w)
@@ -606,6 +608,19 @@ Definition plan_dohtml (dest : str) (insm dirm : option N) (o : htmlopts) (pos :
 Definition plan_base (c : ictx) (pos : list (str * skind)) : res (list action) :=
   inl (base_action (c_dest c) :: install_basenames c pos).
 
+(* the chmod modes of one invocation: (files, directories); None = no chmod at all.
+   Dobin.parse_install_options overrides the string; otherwise the wrapper's option or the
+   class default (insoptions_default / diroptions_default) *)
+Definition helper_modes (h : str) (w : wopts) : res (option N * option N) :=
+  let ins_s := if str_mem h [lit "dobin"; lit "dosbin"] then Some (lit "-m0755")
+               else match o_ins w with Some s => Some s | None => Some (ins_default h) end in
+  let dir_s := match o_dir w with Some s => Some s | None => Some (dir_default h) end in
+  match install_mode ins_s, install_mode dir_s with
+  | Some None, _ | _, Some None => inr (E "fallback-unmodelled")
+  | im, dm => inl (match im with Some (Some m) => Some m | _ => None end,
+                   match dm with Some (Some m) => Some m | _ => None end)
+  end.
+
 Definition plan (i : inv) : res (list action) :=
   let h := helper i in
   match gates_of (eapi i) with
@@ -617,15 +632,9 @@ Definition plan (i : inv) : res (list action) :=
   | Some w =>
   let p := parse_argv h (args i) false parsed0 in
   match p_err p with Some e => inr e | None =>
-  (* Dobin.parse_install_options overrides the string *)
-  let ins_s := if str_mem h [lit "dobin"; lit "dosbin"] then Some (lit "-m0755")
-               else match o_ins w with Some s => Some s | None => Some (ins_default h) end in
-  let dir_s := match o_dir w with Some s => Some s | None => Some (dir_default h) end in
-  match install_mode ins_s, install_mode dir_s with
-  | Some None, _ | _, Some None => inr (E "fallback-unmodelled")
-  | im, dm =>
-  let insm := match im with Some (Some m) => Some m | _ => None end in
-  let dirm := match dm with Some (Some m) => Some m | _ => None end in
+  match helper_modes h w with
+  | inr e => inr e
+  | inl (insm, dirm) =>
   let dest := match o_dest w with Some d => d | None => [SL] end in
   let c := {| c_dest := dest; c_insmode := insm; c_dirmode := dirm |} in
   let pos := p_pos p in
